@@ -58,6 +58,11 @@ def _test_kinds(fn_node, test, param):
                 else:
                     return None
             return ks
+    # the truth value of the yielded object is not a kind: `not value` accepts None and empty containers - and also 0, '', False, an
+    # object whose __len__ is 0 ...
+    t_ = test.operand if isinstance(test, ast.UnaryOp) and isinstance(test.op, ast.Not) else test
+    if isinstance(t_, ast.Name) and _alias_of_param(fn_node, t_.id, param):
+        return {"truthiness"}
     if isinstance(test, ast.BoolOp) and isinstance(test.op, ast.And):
         # a conjunction that narrows a kind test on the parameter (`isinstance(value, tuple) and hasattr(value, "_make")`):
         # a kind of its own, outside the modelled ones; the two recursions have to agree on it literally
@@ -78,7 +83,7 @@ def _test_kinds(fn_node, test, param):
 
 
 def foreign(ks):
-    return set(k for k in ks if k.startswith("other:"))
+    return set(k for k in ks if k.startswith("other:") or k == "truthiness")
 
 
 def _ends_flow(stmts):
@@ -211,6 +216,12 @@ def unwrap_rules(R, prefix, order_only=False):
             if ks == {"none"}:
                 if not order_only:
                     R.check(v is None or q.is_none(v), prefix + ".SHAPE", key, rsite, "None stays None", "None is not unwrapped to None")
+                continue
+            if ks == {"truthiness"}:
+                R.violation(prefix + ".TYPEERROR", fi.qualname + ":truthiness", rsite,
+                            "unwrap dispatches on the truth value of the yielded object (`%s`) and hands it back: a yielded object that is not a future but is falsy "
+                            "(0, '', False, 0.0, an empty set or range, an object whose __len__ is 0) is returned to the task instead of being reported as TypeError"
+                            % q.src(node.test))
                 continue
             if foreign(ks):
                 continue        # decided by the agreement rule: extract_futures has to have the same arm
